@@ -581,6 +581,116 @@ def eval (exactOrder : Bool) : Expr → Except Err V
       | .error e => .error e
       | .ok vb => evalBin exactOrder o va vb
 
+/-! ## `parse_number` as a PREFIX scanner (parse/value.rs:949-1092)
+
+  `parseLit` above is the grammar of a literal that is consumed completely; `scanNumber` is the
+  function as written: it consumes the longest prefix the three helpers accept, leaves the rest
+  (unit, `%`, a second number …) and fails with "Expected digit." where the Rust code does.
+  Theorems `C07_scan_complete` / `C07_scan_sound` relate the two. -/
+
+inductive Scan where
+  | ok (l : Lit) (rest : List Char)
+  | expectedDigit
+  deriving DecidableEq, Repr
+
+/-- `try_exponent` (value.rs:1049-1092).  `none` = `Err("Expected digit.")`; `some (0, s)` with the
+    text untouched = `Ok(None)`: `e`/`E` is consumed only when followed by a digit, `+` or `-`
+    (value.rs:1059-1065), and after a sign a digit is demanded (value.rs:1074-1079). -/
+def scanExp (s : List Char) : Option (Int × List Char) :=
+  match s with
+  | [] => some (0, [])
+  | c :: r =>
+    if c == 'e' || c == 'E' then
+      match r with
+      | '+' :: ds =>
+        if ds.takeWhile isDigit = [] then none
+        else some ((valDigits (ds.takeWhile isDigit) : Int), ds.dropWhile isDigit)
+      | '-' :: ds =>
+        if ds.takeWhile isDigit = [] then none
+        else some (-(valDigits (ds.takeWhile isDigit) : Int), ds.dropWhile isDigit)
+      | ds =>
+        if ds.takeWhile isDigit = [] then some (0, s)
+        else some ((valDigits (ds.takeWhile isDigit) : Int), ds.dropWhile isDigit)
+    else some (0, s)
+
+/-- the body of `parse_number` after the sign (value.rs:987-994): `consume_natural_number` unless the
+    next char is `.` (value.rs:989; it fails with "Expected digit." on a non-digit, value.rs:949-965),
+    `try_decimal` with `allow_trailing_dot = (some digit was consumed)` (value.rs:993, 1016-1047: a `.`
+    at the very end of the input is an error even then, value.rs:1030), then `try_exponent`. -/
+def scanBody (neg : Bool) (s1 : List Char) : Scan :=
+  let int := s1.takeWhile isDigit
+  let s2 := s1.dropWhile isDigit
+  if int = [] ∧ s1.head? ≠ some '.' then .expectedDigit else
+  match s2 with
+  | '.' :: r =>
+    match r with
+    | [] => .expectedDigit
+    | c :: _ =>
+      if isDigit c then
+        match scanExp (r.dropWhile isDigit) with
+        | none => .expectedDigit
+        | some (e, rest) => .ok { neg, int, frac := r.takeWhile isDigit, exp := e } rest
+      else if int ≠ [] then .ok { neg, int, frac := [], exp := 0 } s2    -- the dot is left; `try_exponent` sees `.`
+      else .expectedDigit
+  | _ =>
+    match scanExp s2 with
+    | none => .expectedDigit
+    | some (e, rest) => .ok { neg, int, frac := [], exp := e } rest
+
+/-- `parse_number` up to the unit (value.rs:980-996): `+` is tried first, `-` only if there was no `+`. -/
+def scanNumber (s : List Char) : Scan :=
+  match s with
+  | '+' :: r => scanBody false r
+  | '-' :: r => scanBody true r
+  | _ => scanBody false s
+
+/-- guard of the driver: the exact value of a literal is computed as a rational, so the exponent is
+    bounded (beyond it the driver answers `unsupported`) -/
+def litGuard (l : Lit) : Bool := decide (l.exp.natAbs ≤ 1200) && decide (l.int.length + l.frac.length ≤ 1200)
+
+def isAlpha (c : Char) : Bool := decide ('a' ≤ c ∧ c ≤ 'z') || decide ('A' ≤ c ∧ c ≤ 'Z')
+
+/-- what follows the number in the driver's `scan` request: nothing, `%`, or a unit made of letters
+    (value.rs:998-1007); a rest that starts with `.` is handed to `parse_number` again by the
+    expression parser (value.rs parse_single_expression: `.` starts a number) -/
+inductive Rest where
+  | unit (u : List Char) | again | other
+  deriving DecidableEq, Repr
+
+def classifyRest (rest : List Char) : Rest :=
+  match rest with
+  | [] => .unit []
+  | ['%'] => .unit ['%']
+  | '.' :: _ => .again
+  | _ => if rest.all isAlpha then .unit rest else .other
+
+/-! ## sass:math functions that need no libm (builtin/functions/math.rs, builtin/modules/math.rs) -/
+
+/-- `math.min` (functions/math.rs:122-166): the running minimum is replaced only when the next
+    number is `<` it — the tolerance-aware `<` of `evaluate::cmp`. -/
+def minD : D → List D → D
+  | m, [] => m
+  | m, x :: xs => minD (if cmpResult .lt (cmpD false x m) then x else m) xs
+
+/-- `math.max` (functions/math.rs:168-213) -/
+def maxD : D → List D → D
+  | m, [] => m
+  | m, x :: xs => maxD (if cmpResult .gt (cmpD false x m) then x else m) xs
+
+/-- `math.clamp` on unit-less numbers (modules/math.rs:28-120): `min > number` → min, `min == number`
+    → number (without looking at max), otherwise `max < number` → max, else number. -/
+def clampD (mn x mx : D) : D :=
+  match cmpD false mn x with
+  | some .gt => mn
+  | some .eq => x
+  | _ =>
+    match cmpD false mx x with
+    | some .lt => mx
+    | _ => x
+
+/-- `percentage` (functions/math.rs:3-15): `num * 100.0`, unit `%` -/
+def percentageD (d : D) : Option D := D.mul d (.fin 100)
+
 /-! ## driver -/
 open Grass.Proto
 
@@ -674,6 +784,46 @@ def handle : List String → String
     | some c, some sl, some n, some d =>
       if d = 0 then "bad-op" else "ok " ++ hexEncode (String.ofList (printFinite sl c ((n : Rat) / (d : Rat))))
     | _, _, _, _ => "bad-op"
+  -- scan <c|e> <hex text> : `parse_number` as a prefix scanner on the text, then print number ++ unit
+  | ["scan", st, hx] =>
+    match parseBool? (if st == "c" then "1" else if st == "e" then "0" else st), hexDecode hx with
+    | some c, some txt =>
+      -- the text is scanned as grass sees it in `v: <text>;` — never at the very end of the input
+      match scanNumber (txt.toList ++ [';']) with
+      | .expectedDigit => "err digit"
+      | .ok l rest0 =>
+        let rest := if rest0.getLast? = some ';' then rest0.dropLast else rest0
+        match classifyRest rest with
+        | .other => "unsupported"
+        | .again =>
+          (match scanNumber rest0 with
+           | .expectedDigit => "err digit"
+           | _ => "unsupported")
+        | .unit u =>
+          if !litGuard l then "unsupported" else
+          match litD l with
+          | some d => "ok " ++ hexEncode (String.ofList (printD false c d ++ u)) ++ " rest=" ++ toString u.length ++
+              " same=" ++ boolStr (decide (parseLit (txt.toList.take (txt.toList.length - rest.length)) = some l))
+          | none => "unsupported"
+    | _, _ => "bad-op"
+  -- mfn <c|e> <min|max|clamp|percentage> <literal>… : sass:math functions that need no libm
+  | "mfn" :: st :: fn :: args =>
+    match parseBool? (if st == "c" then "1" else if st == "e" then "0" else st) with
+    | none => "bad-op"
+    | some c =>
+      let lits := args.map (fun a => parseLit a.toList)
+      if lits.any (·.isNone) then "bad-op" else
+      let ds := lits.filterMap (fun o => o.bind (fun l => if litGuard l then litD l else none))
+      if ds.length ≠ args.length then "unsupported" else
+      match fn, ds with
+      | "min", m :: xs => "ok " ++ hexEncode (String.ofList (printD false c (minD m xs)))
+      | "max", m :: xs => "ok " ++ hexEncode (String.ofList (printD false c (maxD m xs)))
+      | "clamp", [a, b, d] => "ok " ++ hexEncode (String.ofList (printD false c (clampD a b d)))
+      | "percentage", [a] =>
+        (match percentageD a with
+         | some d => "ok " ++ hexEncode (String.ofList (printD false c d ++ ['%']))
+         | none => "unsupported")
+      | _, _ => "bad-op"
   | ["fuzzyround", n, d] =>
     match n.toInt?, d.toNat? with
     | some n, some d => if d = 0 then "bad-op" else s!"ok {fuzzyRoundX ((n : Rat) / (d : Rat))}"
